@@ -71,7 +71,7 @@ Definition step (c : config) (s : state) (e : event) : option state :=
     match st s i with
     | Waiting =>
       match cond_of c i with
-      | CErr => Some (mkState (upd (st s) i Error) true (gerr s) (log s) (pend s) false false)
+      | CErr => Some (mkState (upd (st s) i Error) true (gerr s || negb (allow_of c i)) (log s) (pend s) false false)
       | CFalse => Some (mkState (upd (st s) i Skipped) (cancelled s) (gerr s) (log s) (pend s) false false)
       | _ =>
         match check c (st s) (deps_of c i) VReady with
